@@ -397,12 +397,19 @@ fn close_mode(inputs: &[Value], si: usize, sn: usize, out: &mut TraceOut, pend: 
                 }
                 ev["parked"] = json!(parked);
                 let _ = shim::take_calls();
+                // nothing that was not already in flight at the drop may change the directory afterwards
+                let before_drop = snapshot(&dir);
                 // the drop; a thread parked inside the store may keep locks, so drop from a helper thread
                 let t_drop = Instant::now();
                 let dropper = std::thread::spawn(move || drop(kv));
                 if kind == "writer-busy" {
                     std::thread::sleep(Duration::from_millis(120));
+                } else {
+                    // the parked worker goes on only once the drop has happened (the drop does not wait
+                    // for it); releasing it earlier would let it start work BEFORE the drop, rightly
+                    let _ = wait_until(|| dropper.is_finished(), Duration::from_millis(400));
                 }
+                ev["drop_done_before_release"] = json!(dropper.is_finished());
                 release();
                 let drop_joined = wait_until(|| dropper.is_finished(), Duration::from_secs(5));
                 let _ = dropper.join();
@@ -414,8 +421,10 @@ fn close_mode(inputs: &[Value], si: usize, sn: usize, out: &mut TraceOut, pend: 
                 let gone = wait_until(|| bg_threads() <= base_bg, Duration::from_secs(3));
                 ev["bg_gone_ms"] = json!(gone.map(|x| x as i64).unwrap_or(-1));
                 let _ = t_drop;
-                let _ = shim::take_calls();
+                let calls_until_gone = shim::take_calls();
                 let dirsnap = snapshot(&dir);
+                ev["changed_between_drop_and_worker_exit"] = json!(dirsnap != before_drop);
+                ev["mutating_calls_between_drop_and_worker_exit"] = json!(calls_until_gone.iter().filter(|c| c.mutating()).count());
                 ev["after"] = use_closed_handle(&h);
                 let calls = shim::take_calls();
                 ev["mutating_calls_after_drop"] = json!(calls.iter().filter(|c| c.mutating()).count());
